@@ -1223,7 +1223,13 @@ func (in *Interp) callBuiltin(caller *frame, fn *ssa.Builtin, args []Value) Valu
 			}
 			return dst
 		}
-		newCap := 2*cap(dst) + len(src)
+		// the capacity grows as in the gc runtime (growslice + malloc size classes), so that spare capacity - and with it
+		// aliasing between an old slice and the result of append - arises exactly where it does natively
+		elemSize := int64(1)
+		if st, ok := fn.Type().(*types.Signature).Params().At(0).Type().Underlying().(*types.Slice); ok {
+			elemSize = goSizes.Sizeof(st.Elem())
+		}
+		newCap := goGrowCap(cap(dst), len(dst)+len(src), elemSize)
 		nd := make([]Value, newCap)
 		for i := range dst {
 			nd[i] = copyVal(dst[i])
@@ -1424,4 +1430,48 @@ func zeroLike(v Value) Value {
 		return Iface{}
 	}
 	return v
+}
+
+
+var goSizes = types.StdSizes{WordSize: 8, MaxAlign: 8}
+
+// goSizeClasses: malloc size classes of the gc runtime (runtime/sizeclasses.go).
+var goSizeClasses = []int64{0, 8, 16, 24, 32, 48, 64, 80, 96, 112, 128, 144, 160, 176, 192, 208, 224, 240, 256, 288, 320, 352, 384, 416, 448, 480, 512,
+	576, 640, 704, 768, 896, 1024, 1152, 1280, 1408, 1536, 1792, 2048, 2304, 2688, 3072, 3200, 3456, 4096, 4864, 5376, 6144, 6528, 6784, 6912, 8192,
+	9472, 9728, 10240, 10880, 12288, 13568, 14336, 16384, 18432, 19072, 20480, 21760, 24576, 27264, 28672, 32768}
+
+func goRoundUpSize(n int64) int64 {
+	if n <= 32768 {
+		for _, c := range goSizeClasses {
+			if c >= n {
+				return c
+			}
+		}
+	}
+	const page = 8192
+	return (n + page - 1) / page * page
+}
+
+// goGrowCap: capacity of the slice that append allocates when newLen elements of elemSize bytes do not fit in oldCap
+// (runtime.growslice / nextslicecap of Go 1.20+, amd64).
+func goGrowCap(oldCap, newLen int, elemSize int64) int {
+	newcap := oldCap
+	doublecap := newcap + newcap
+	if newLen > doublecap {
+		newcap = newLen
+	} else {
+		const threshold = 256
+		if oldCap < threshold {
+			newcap = doublecap
+		} else {
+			for newcap < newLen {
+				newcap += (newcap + 3*threshold) >> 2
+			}
+		}
+	}
+	if elemSize <= 0 {
+		return newcap
+	}
+	mem := goRoundUpSize(int64(newcap) * elemSize)
+	return int(mem / elemSize)
 }
